@@ -12,7 +12,9 @@ package vm
 // not alter the invocation's result"; they are decided here once.)
 
 import (
+	"fmt"
 	"reflect"
+	"strings"
 
 	"github.com/mattn/anko/env"
 	zz "github.com/mattn/anko/zzverif"
@@ -84,7 +86,8 @@ func zzReadEnv(ck int, v0, v1 int64) (e *env.Env, p0, p1 string, read func(i int
 var zzReadForms = []string{"variable", "var-statement", "parameter", "list-literal", "map-literal", "defer-argument", "function-result", "swap", "rotate-through-variable",
 	"go-argument", "closure-result-after-defer", "two-targets-from-one-element", "variadic-parameter", "return-list",
 	"left-operand-of-binary-operator", "left-operand-of-comparison", "spread-assignment", "spread-var",
-	"value-ok-form", "spread-argument", "deferred-spread-argument", "switch-subject", "in-item", "map-literal-key", "indexed-container", "for-in-variable"}
+	"value-ok-form", "spread-argument", "deferred-spread-argument", "switch-subject", "in-item", "map-literal-key", "indexed-container", "for-in-variable",
+	"left-operand-with-right-operand-shapes"}
 
 // ZZ_C10_read_is_a_value: container kind x receiving form; old and new
 // payloads symbolic.
@@ -198,6 +201,65 @@ func ZZ_C10_read_is_a_value() {
 		}
 		src = "r = []; for x in c { c[0] = wnew; r += x; break }; r"
 		want = []int64{v0}
+	case 26:
+		// the left operand of every operator family is read before the right
+		// operand runs, whatever the right operand's own syntax is: a call, a
+		// member of a call's result, an index computed by a call, an entry of
+		// a map looked up by a call (the store hides one level down)
+		ops := []string{"-", "+", "*", "/", "<", "=="}
+		op := ops[zz.Choose(len(ops))]
+		store := "func() { " + p0 + " = wnew; return %s }()"
+		shapes := []string{
+			fmt.Sprintf(store, "0"),
+			fmt.Sprintf(store, `{"n": 0}`) + ".n",
+			"zzz[" + fmt.Sprintf(store, "0") + "]",
+			"zzm[" + fmt.Sprintf(store, `"k"`) + "]",
+			"(" + fmt.Sprintf(store, "0") + ")",
+			"-" + fmt.Sprintf(store, "0"),
+			"zzz[" + fmt.Sprintf(store, "0") + ":][0]",
+		}
+		sh := zz.Choose(len(shapes))
+		id += "/" + op + "/" + []string{"call", "member-of-call", "index-by-call", "map-entry-by-call", "parenthesised-call", "negated-call", "slice-by-call"}[sh]
+		e.Define("zzz", []interface{}{int64(0)})
+		e.Define("zzm", map[string]interface{}{"k": int64(0)})
+		e.Define("vold", v0)
+		switch op {
+		case "-", "+":
+			src = "[" + p0 + " " + op + " " + shapes[sh] + "]"
+			want = []int64{v0}
+		case "*", "/":
+			// right operand 1: x * 1, x / 1 (the quotient is a float: compared through toInt-free equality below)
+			one := strings.Replace(strings.Replace(shapes[sh], "return 0 }", "return 1 }", 1), `{"n": 0}`, `{"n": 1}`, 1)
+			if sh == 2 || sh == 3 || sh == 6 {
+				return // (the looked-up entry is the zero the container holds)
+			}
+			if op == "/" {
+				src = "[(" + p0 + " / " + one + ") == vold / 1 ? 1 : 0]"
+				want = []int64{1}
+				zz.Assume(zz.And(v0 > -(1<<52), v0 < 1<<52))
+				zz.Assume(zz.And(w > -(1<<52), w < 1<<52))
+			} else {
+				src = "[" + p0 + " * " + one + "]"
+				want = []int64{v0}
+			}
+			if sh == 5 {
+				return // (-1 changes the sign: covered by the other shapes)
+			}
+		case "<", "==":
+			// compared with a right operand equal to the old value
+			oldv := strings.Replace(strings.Replace(shapes[sh], "return 0 }", "return vold }", 1), `{"n": 0}`, `{"n": vold}`, 1)
+			if sh == 2 || sh == 3 || sh == 5 || sh == 6 {
+				return
+			}
+			if op == "==" {
+				src = "[" + p0 + " == " + oldv + " ? 1 : 0]"
+				want = []int64{1}
+			} else {
+				src = "[" + p0 + " < " + oldv + " ? 1 : 0]"
+				want = []int64{0}
+			}
+		}
+		zz.Assume(v0 != w)
 	case 16, 17:
 		// `x, y = c` spreads a slice over its targets
 		if ck != 0 && ck != 1 {
